@@ -83,7 +83,15 @@ var c13Schema = []string{
 
 func c13GenStmt(r *core.Rand, ep string) c13Stmt {
 	id := 1 + r.Intn(9)
-	switch x := r.Intn(100); {
+	if ep == "request" && r.Bool(0.08) {
+		// queries (half of them failing at run time) are specific to the unified endpoint
+		return c13GenStmtAt(r, ep, id, 95)
+	}
+	return c13GenStmtAt(r, ep, id, r.Intn(100))
+}
+
+func c13GenStmtAt(r *core.Rand, ep string, id, x int) c13Stmt {
+	switch {
 	case x < 18: // insert, may hit PK or UNIQUE
 		name := fmt.Sprintf("n%d", id)
 		if r.Bool(0.15) {
@@ -144,6 +152,12 @@ func c13GenStmt(r *core.Rand, ep string) c13Stmt {
 	case x < 92:
 		return c13Stmt{Kind: "ctl", SQL: ""} // empty statement
 	default:
+		if ep == "request" && r.Bool(0.5) {
+			// read-only statements that PREPARE fine and fail when they RUN
+			return c13Stmt{Kind: "select", Rows: true, SQL: []string{"SELECT abs(-9223372036854775808)", "SELECT json_extract('{', '$.a')",
+				"SELECT id, abs(bal - 9223372036854775807 - 1) FROM acct ORDER BY id", "SELECT count(*) FROM acct WHERE json_extract('[1,', '$[0]') = id",
+				"SELECT like('a', 'b', 'toolong')"}[r.Intn(5)]}
+		}
 		if ep == "request" {
 			return c13Stmt{Kind: "select", Rows: true, SQL: []string{"SELECT count(*), sum(bal) FROM acct", "SELECT id, bal FROM acct ORDER BY id", "SELECT max(id) FROM audit"}[r.Intn(3)]}
 		}
@@ -997,6 +1011,12 @@ func c13Run(c *core.Ctx, raw json.RawMessage) {
 				}
 				if expList[j].Err != "" && expList[j].Err != gotRes[j].Err {
 					c.Probe("error_text_differs")
+				}
+				if expList[j].Err != "" && st.Kind == "select" {
+					c.Probe("readonly_statement_failed_at_run_time")
+					if op.Tx {
+						c.Probe("readonly_statement_failed_at_run_time_in_tx")
+					}
 				}
 				j++
 			}
